@@ -353,9 +353,96 @@ fn check_case(ctx: &Ctx, t: &Template, chosen: &[Slot], double: bool, max_width:
     ctx.outcome("case");
 }
 
+/// Second family: every node kind x every slot, with a multi-line commented list (or record)
+/// placed in that slot (condition of an `if`, operand of an operator, index, callee, lambda body,
+/// do-block statement, ...). All comments sit on list items / record entries, so all must survive.
+pub fn nested_container_programs() -> Vec<String> {
+    use crate::tgen::*;
+    let containers = [
+        "[\n  1, // la{n}\n  // lb{n}\n  2,\n  // lc{n}\n]",
+        "{\n  p: 1, // ra{n}\n  // rb{n}\n  q: 2,\n}",
+        "[1, // only{n}\n]",
+    ];
+    let mut out = vec![];
+    let mut n = 0;
+    // two levels: parent kind x slot x child kind x slot, container in the child's slot
+    let kinds = all_kinds();
+    for p in &kinds {
+        if !p.is_expr {
+            continue;
+        }
+        for (pi, pslot) in p.slots.iter().enumerate() {
+            for c in &kinds {
+                if !c.is_expr && *pslot != SlotKind::Spreadable {
+                    continue;
+                }
+                for cj in 0..c.slots.len() {
+                    let mut supply = LeafSupply::new();
+                    let c_children: Vec<T> = (0..c.slots.len()).map(|j| if j == cj { T::id("ZZZ") } else { supply.leaf() }).collect();
+                    let c_tree = (c.build)(c_children);
+                    let mut c_opt = Some(c_tree);
+                    let p_children: Vec<T> = (0..p.slots.len()).map(|i| if i == pi { c_opt.take().unwrap() } else { supply.leaf() }).collect();
+                    let tree = (p.build)(p_children);
+                    let text = tree.full();
+                    n += 1;
+                    out.push(text.replace("ZZZ", &containers[n % containers.len()].replace("{n}", &n.to_string())));
+                }
+            }
+        }
+    }
+    for k in all_kinds() {
+        if !k.is_expr {
+            continue;
+        }
+        for slot in 0..k.slots.len() {
+            let mut supply = LeafSupply::new();
+            let children: Vec<T> = (0..k.slots.len()).map(|i| if i == slot { T::id("ZZZ") } else { supply.leaf() }).collect();
+            let tree = (k.build)(children);
+            let text = tree.full();
+            for c in containers {
+                n += 1;
+                let filled = text.replace("ZZZ", &c.replace("{n}", &n.to_string()));
+                out.push(filled.clone());
+                out.push(format!("v = {}", filled));
+            }
+        }
+    }
+    out
+}
+
+fn check_nested(ctx: &Ctx, src: &str, max_width: usize) {
+    if parse_program(src, true).is_err() {
+        ctx.outcome("nested-container-input-unparsable");
+        return;
+    }
+    ctx.outcome("nested-container-case");
+    ctx.nontrivial(src);
+    let placed: Vec<(String, K)> = scan_comments(src).into_iter().map(|c| (c, K::List)).collect();
+    let mut seen = std::collections::BTreeSet::new();
+    let mut widths: Vec<Option<usize>> = (1..=max_width).step_by(3).map(Some).collect();
+    widths.push(None);
+    for w in widths {
+        ctx.count(1);
+        match fmt_lib(src, w) {
+            Ok(out) => {
+                if seen.insert(out.clone()) {
+                    judge(ctx, "lib", src, &placed, &out, w, "nested-container");
+                }
+            }
+            Err(e) => ctx.violation(Violation { kind: "format-fails".into(), class: "nested-container".into(), input: src.to_string(), expected: "formatted text".into(), observed: e, case: json!({"src": src, "width": w, "path": "lib"}) }),
+        }
+    }
+    ctx.count(1);
+    match run_cli_format(src) {
+        Ok(out) => judge(ctx, "cli", src, &placed, &out, None, "nested-container"),
+        Err(e) => ctx.violation(Violation { kind: "format-fails".into(), class: "nested-container".into(), input: src.to_string(), expected: "blots --format succeeds".into(), observed: e, case: json!({"src": src, "width": null, "path": "cli"}) }),
+    }
+}
+
 /// Every commented program of the single-slot, pair and all-slots families (used by C07/C08).
 pub fn commented_programs(thorough: bool) -> Vec<String> {
     let mut out = vec![];
+    out.extend(nested_container_programs());
     for t in templates() {
         let ss = slots(&t);
         for s in &ss {
@@ -434,6 +521,10 @@ pub fn run(ctx: &Ctx, replay: Option<&J>) -> i32 {
         let j = &jobs[i];
         check_case(ctx, &ts[j.t], &j.chosen, j.double, max_width);
     });
+    let nested = nested_container_programs();
+    par_for(nested.len(), |i| check_nested(ctx, &nested[i], max_width));
+    ctx.set("nested_container_programs", json!(nested.len()));
+    ctx.require_outcome("nested-container-case", 300);
     crate::proc::cleanup_scratch();
     ctx.set("templates", json!(ts.iter().map(|t| t.name).collect::<Vec<_>>()));
     ctx.set("cases", json!(jobs.len()));
